@@ -1,4 +1,7 @@
 import E3fpVerif.Model.Fprinter
+import E3fpVerif.Lemmas.SortBy
+import E3fpVerif.Lemmas.Uniq
+import E3fpVerif.Lemmas.EnumOrder
 namespace E3fpVerif.Props.C03
 open E3fpVerif
 
@@ -15,5 +18,320 @@ theorem firstUnique_some_count {κ : Type} [DecidableEq κ] (keys : List κ) (i 
   simp at this
   obtain ⟨h1, h2⟩ := this
   simp [h2]
+
+/-- no element is selected exactly when no key occurs exactly once -/
+theorem firstUnique_none_iff {κ : Type} [DecidableEq κ] (keys : List κ) :
+    firstUnique keys = none ↔ ∀ k ∈ keys, keys.count k ≠ 1 := by
+  unfold firstUnique
+  simp only [Option.map_eq_none_iff, List.find?_eq_none, beq_iff_eq]
+  constructor
+  · intro h k hk
+    obtain ⟨i, hi, rfl⟩ := List.getElem_of_mem hk
+    exact h (keys[i], i) (List.mem_zipIdx_iff_getElem?.2 (by simp [hi]))
+  · intro h p hp
+    have := List.mem_zipIdx_iff_getElem?.1 hp
+    exact h p.1 (List.mem_of_getElem? this)
+
+example : firstUnique [1, 1, 2, 2] = none ∧ firstUnique [1, 1, 2, 3] = some 2 := by decide
+
+/-! ## the sort the fingerprinter applies before every order-sensitive step -/
+
+/-- sorting preserves membership -/
+theorem mem_sortByLt {β : Type} (lt : β → β → Bool) (x : β) (l : List β) : x ∈ sortByLt lt l ↔ x ∈ l :=
+  E3fpVerif.mem_sortByLt lt x l
+
+/-- sorting permutes -/
+theorem sortByLt_perm {β : Type} (lt : β → β → Bool) (l : List β) : (sortByLt lt l).Perm l :=
+  E3fpVerif.sortByLt_perm lt l
+
+/-- for an irreflexive transitive `lt`, no later element of the result is below an earlier one; and
+if `lt` is trichotomous on the elements, every earlier element is below or equal to every later one -/
+theorem sortByLt_sorted {β : Type} (lt : β → β → Bool)
+    (irrefl : ∀ a, lt a a = false) (trans : ∀ a b c, lt a b = true → lt b c = true → lt a c = true)
+    (l : List β) :
+    (sortByLt lt l).Pairwise (fun a b => lt b a = false) ∧
+    ((∀ a ∈ l, ∀ b ∈ l, lt a b = true ∨ a = b ∨ lt b a = true) →
+      (sortByLt lt l).Pairwise (fun a b => lt a b = true ∨ a = b)) :=
+  ⟨E3fpVerif.sortByLt_sorted lt irrefl trans l, E3fpVerif.sortByLt_sorted_le lt irrefl trans l⟩
+
+/-- for a strict total order on the elements, the sorted list does not depend on the input order -/
+theorem sortByLt_eq_of_perm {β : Type} (lt : β → β → Bool)
+    (irrefl : ∀ a, lt a a = false) (trans : ∀ a b c, lt a b = true → lt b c = true → lt a c = true)
+    (l₁ l₂ : List β) (tri : ∀ a ∈ l₁, ∀ b ∈ l₁, lt a b = true ∨ a = b ∨ lt b a = true) (hp : l₁.Perm l₂) :
+    sortByLt lt l₁ = sortByLt lt l₂ :=
+  E3fpVerif.sortByLt_eq_of_perm lt irrefl trans l₁ l₂ tri hp
+
+/-- neighbour tuples `(bond code, identifier, atom)` -/
+theorem sortByLt_lt3_perm (l₁ l₂ : List (Nat × Int × Nat)) (hp : l₁.Perm l₂) :
+    sortByLt lt3 l₁ = sortByLt lt3 l₂ :=
+  E3fpVerif.sortByLt_eq_of_perm lt3 lt3_irrefl lt3_trans l₁ l₂ (fun a _ b _ => lt3_trich a b) hp
+
+/-- the per-neighbour integer tuples that are hashed -/
+theorem sortByLt_ltIntList_perm (l₁ l₂ : List (List Int)) (hp : l₁.Perm l₂) :
+    sortByLt ltIntList l₁ = sortByLt ltIntList l₂ :=
+  E3fpVerif.sortByLt_eq_of_perm ltIntList ltIntList_irrefl ltIntList_trans l₁ l₂
+    (fun a _ b _ => ltIntList_trich a b) hp
+
+/-- the shells of one level, sorted by `(identifier, atom)`: the order is canonical as soon as that
+key determines the shell among the shells sorted (one shell per centre atom) -/
+theorem sortByLt_ltShell_perm (l₁ l₂ : List GShell)
+    (hk : ∀ a ∈ l₁, ∀ b ∈ l₁, a.ident = b.ident → a.atom = b.atom → a = b) (hp : l₁.Perm l₂) :
+    sortByLt ltShell l₁ = sortByLt ltShell l₂ := by
+  refine E3fpVerif.sortByLt_eq_of_perm ltShell ltShell_irrefl ltShell_trans l₁ l₂ ?_ hp
+  intro a ha b hb
+  rcases ltShell_trich_key a b with h | h | h
+  · exact Or.inl h
+  · exact Or.inr (Or.inl (hk a ha b hb h.1 h.2))
+  · exact Or.inr (Or.inr h)
+
+theorem eq_of_nodup_map {β γ : Type} (f : β → γ) : ∀ (l : List β), (l.map f).Nodup →
+    ∀ a ∈ l, ∀ b ∈ l, f a = f b → a = b
+  | [], _, a, ha, _, _, _ => by simp at ha
+  | x :: xs, hn, a, ha, b, hb, hab => by
+    simp only [List.map_cons, List.nodup_cons, List.mem_map, not_exists, not_and] at hn
+    rcases List.mem_cons.1 ha with rfl | ha' <;> rcases List.mem_cons.1 hb with rfl | hb'
+    · rfl
+    · exact absurd hab.symm (hn.1 b hb')
+    · exact absurd hab (hn.1 a ha')
+    · exact eq_of_nodup_map f xs hn.2 a ha' b hb' hab
+
+/-- one shell per centre atom is enough -/
+theorem sortByLt_ltShell_perm_of_nodup (l₁ l₂ : List GShell) (hn : (l₁.map (·.atom)).Nodup) (hp : l₁.Perm l₂) :
+    sortByLt ltShell l₁ = sortByLt ltShell l₂ := by
+  apply sortByLt_ltShell_perm l₁ l₂ _ hp
+  intro a ha b hb _ hat
+  exact eq_of_nodup_map (·.atom) l₁ hn a ha b hb hat
+
+example : sortByLt lt3 [(2, 5, 0), (1, -3, 4), (1, -3, 2)] = sortByLt lt3 [(1, -3, 2), (2, 5, 0), (1, -3, 4)]
+    ∧ sortByLt lt3 [(2, 5, 0), (1, -3, 4), (1, -3, 2)] = [(1, -3, 2), (1, -3, 4), (2, 5, 0)] := by decide
+
+/-- the hypothesis on `ltShell` cannot be dropped: two different shells with the same `(ident, atom)`
+keep their input order -/
+example : ∃ a b : GShell, sortByLt ltShell [a, b] ≠ sortByLt ltShell [b, a] :=
+  ⟨⟨0, 0, [], [], 0⟩, ⟨0, 1, [], [], 0⟩, by decide⟩
+
+/-! ## the neighbour enumeration order does not matter -/
+
+/-- `atom_tuples_from_shell` does not depend on the order in which the neighbours are enumerated
+(Python's set iteration order): the tuples are sorted by the total order `lt3` before the stereo
+step sees them -/
+theorem atomTuples_perm (o : Opts) (m : MolG) (g : Geo) (prev : List GShell) (a : Nat) (nb nb' : List Nat)
+    (hp : nb.Perm nb') : atomTuples o m g prev a nb = atomTuples o m g prev a nb' := by
+  unfold atomTuples
+  have hnil : (nb = []) ↔ (nb' = []) := by
+    constructor
+    · intro h; subst h; exact hp.nil_eq.symm
+    · intro h; subst h; exact hp.eq_nil
+  have hb : sortByLt lt3 (nb.map (fun b => (conn m a b, (shellOf prev b).ident, b)))
+      = sortByLt lt3 (nb'.map (fun b => (conn m a b, (shellOf prev b).ident, b))) :=
+    sortByLt_lt3_perm _ _ (hp.map _)
+  simp only [hnil, hb]
+
+/-- hence the shell identifier does not depend on it either -/
+theorem shellIdent_perm (o : Opts) (m : MolG) (g : Geo) (prev : List GShell) (k a : Nat) (nb nb' : List Nat)
+    (hp : nb.Perm nb') : shellIdent o m g prev k a nb = shellIdent o m g prev k a nb' := by
+  unfold shellIdent
+  rw [atomTuples_perm o m g prev a nb nb' hp]
+
+example : [3, 1, 2].Perm [1, 2, 3] := by decide
+
+/-! ## the atom enumeration order of the neighbour filter does not matter -/
+
+/-- `genLevel` with the neighbour filter taken over another enumeration `atoms'` of the atoms -/
+def genLevelP (o : Opts) (m : MolG) (g : Geo) (atoms atoms' : List Nat) (prev : List GShell) (k : Nat) (t : Intern) :
+    Intern × List GShell :=
+  atoms.foldl (fun (acc : Intern × List GShell) a =>
+    let nb := atoms'.filter (fun b => b != a && g.within k a b && (o.includeDisconnected || bonded m a b))
+    let members := uniq (nb.map (fun b => (shellOf prev b).sid))
+    let (t', i) := intern acc.1 (a, members)
+    let sub := uniq (a :: nb.flatMap (fun b => (shellOf prev b).sub))
+    (t', acc.2 ++ [{ atom := a, sid := i, sub := sub, nbrs := nb, ident := shellIdent o m g prev k a nb }])) (t, [])
+
+theorem genLevelP_self (o : Opts) (m : MolG) (g : Geo) (atoms : List Nat) (prev : List GShell) (k : Nat) (t : Intern) :
+    genLevelP o m g atoms atoms prev k t = genLevel o m g atoms prev k t := rfl
+
+/-- a shell with its neighbour list read as a set (ascending, duplicate free) -/
+def shellKey (s : GShell) : Nat × Nat × List Nat × List Nat × Int := (s.atom, s.sid, s.sub, uniq s.nbrs, s.ident)
+
+/-- enumerating the atoms in another order for the neighbour filter gives the same intern table and
+shells with the same centre, structural id, substructure, neighbour set and identifier (only the
+order of the stored neighbour list `nbrs` changes) -/
+theorem genLevelP_perm (o : Opts) (m : MolG) (g : Geo) (atoms atoms' : List Nat) (hp : atoms.Perm atoms')
+    (prev : List GShell) (k : Nat) (t : Intern) :
+    (genLevelP o m g atoms atoms' prev k t).1 = (genLevel o m g atoms prev k t).1 ∧
+    (genLevelP o m g atoms atoms' prev k t).2.map shellKey = (genLevel o m g atoms prev k t).2.map shellKey := by
+  unfold genLevelP genLevel
+  apply foldl_rel (fun (x y : Intern × List GShell) =>
+    x.1 = y.1 ∧ x.2.map shellKey = y.2.map shellKey)
+  · exact ⟨rfl, rfl⟩
+  · intro acc acc' a _ ⟨h1, h2⟩
+    have hf : (atoms'.filter (fun b => b != a && g.within k a b && (o.includeDisconnected || bonded m a b))).Perm
+        (atoms.filter (fun b => b != a && g.within k a b && (o.includeDisconnected || bonded m a b))) :=
+      hp.symm.filter _
+    generalize atoms'.filter (fun b => b != a && g.within k a b && (o.includeDisconnected || bonded m a b)) = nb' at hf
+    generalize atoms.filter (fun b => b != a && g.within k a b && (o.includeDisconnected || bonded m a b)) = nb at hf
+    have hmem : uniq (nb'.map (fun b => (shellOf prev b).sid)) = uniq (nb.map (fun b => (shellOf prev b).sid)) :=
+      uniq_ext _ _ (fun x => (hf.map _).mem_iff)
+    have hsub : uniq (a :: nb'.flatMap (fun b => (shellOf prev b).sub)) = uniq (a :: nb.flatMap (fun b => (shellOf prev b).sub)) := by
+      apply uniq_ext
+      intro x
+      simp only [List.mem_cons, List.mem_flatMap]
+      constructor
+      · rintro (h | ⟨b, hb, hx⟩)
+        · exact Or.inl h
+        · exact Or.inr ⟨b, hf.mem_iff.1 hb, hx⟩
+      · rintro (h | ⟨b, hb, hx⟩)
+        · exact Or.inl h
+        · exact Or.inr ⟨b, hf.mem_iff.2 hb, hx⟩
+    have hid := shellIdent_perm o m g prev k a nb' nb hf
+    simp only [hmem, hsub, hid, h1]
+    have hnb : uniq nb' = uniq nb := uniq_ext _ _ (fun x => hf.mem_iff)
+    simp only [List.map_append, h2, List.map_cons, List.map_nil, shellKey, hnb, true_and]
+
+/-- in particular the identifiers produced at a level do not depend on that enumeration order -/
+theorem genLevelP_idents (o : Opts) (m : MolG) (g : Geo) (atoms atoms' : List Nat) (hp : atoms.Perm atoms')
+    (prev : List GShell) (k : Nat) (t : Intern) :
+    (genLevelP o m g atoms atoms' prev k t).2.map (·.ident) = (genLevel o m g atoms prev k t).2.map (·.ident) := by
+  have h := congrArg (List.map (·.2.2.2.2)) (genLevelP_perm o m g atoms atoms' hp prev k t).2
+  simpa [List.map_map, Function.comp_def, shellKey] using h
+
+/-- the shells of a level are one per atom, in the order of `atoms` -/
+theorem genLevel_atoms (o : Opts) (m : MolG) (g : Geo) (atoms : List Nat) (prev : List GShell) (k : Nat) (t : Intern) :
+    (genLevel o m g atoms prev k t).2.map (·.atom) = atoms := by
+  unfold genLevel
+  suffices h : ∀ (l : List Nat) (acc : Intern × List GShell),
+      (l.foldl (fun (acc : Intern × List GShell) a =>
+        let nb := atoms.filter (fun b => b != a && g.within k a b && (o.includeDisconnected || bonded m a b))
+        let members := uniq (nb.map (fun b => (shellOf prev b).sid))
+        let (t', i) := intern acc.1 (a, members)
+        let sub := uniq (a :: nb.flatMap (fun b => (shellOf prev b).sub))
+        (t', acc.2 ++ [{ atom := a, sid := i, sub := sub, nbrs := nb, ident := shellIdent o m g prev k a nb }])) acc).2.map
+          (·.atom) = acc.2.map (·.atom) ++ l by
+    simpa using h atoms (t, [])
+  intro l
+  induction l with
+  | nil => intro acc; simp
+  | cons a as ih =>
+    intro acc
+    simp only [List.foldl_cons]
+    rw [ih]
+    simp
+
+/-- so, for distinct atoms, the `(identifier, atom)` sort `Fingerprinter.__next__` applies to the new
+shells of a level is canonical: any reordering of those shells sorts to the same list -/
+theorem level_sort_canonical (o : Opts) (m : MolG) (g : Geo) (atoms : List Nat) (hn : atoms.Nodup)
+    (prev : List GShell) (k : Nat) (t : Intern) (l' : List GShell) (hp : (genLevel o m g atoms prev k t).2.Perm l') :
+    sortByLt ltShell (genLevel o m g atoms prev k t).2 = sortByLt ltShell l' :=
+  sortByLt_ltShell_perm_of_nodup _ _ (by rw [genLevel_atoms]; exact hn) hp
+
+/-! ### non-vacuity -/
+
+example : ([⟨0, 0, [], [], 5⟩, ⟨1, 1, [], [], 5⟩] : List GShell).map (·.atom) |>.Nodup := by decide
+
+example (o : Opts) (m : MolG) (g : Geo) (prev : List GShell) :
+    atomTuples o m g prev 1 [0, 2, 3] = atomTuples o m g prev 1 [3, 0, 2] :=
+  atomTuples_perm o m g prev 1 _ _ (by decide)
+
+example (o : Opts) (m : MolG) (g : Geo) (prev : List GShell) (t : Intern) :
+    (genLevelP o m g [0, 1, 2] [2, 0, 1] prev 1 t).2.map (·.ident) = (genLevel o m g [0, 1, 2] prev 1 t).2.map (·.ident) :=
+  genLevelP_idents o m g _ _ (by decide) prev 1 t
+
+example : (sortByLt lt3 [(2, 5, 0), (1, -3, 4), (1, -3, 2)]).Pairwise (fun a b => lt3 a b = true ∨ a = b) :=
+  (sortByLt_sorted lt3 lt3_irrefl lt3_trans _).2 (fun a _ b _ => lt3_trich a b)
+
+/-! ## the whole run: set iteration order never reaches the fingerprint
+
+`enum k a l` is an arbitrary reordering of the neighbour list of centre `a` at level `k` (Python's
+set iteration order may differ from set to set).  The run that enumerates neighbours through `enum`
+ends in the same state as the model's run up to the stored lists `GShell.nbrs`, and yields the same
+fingerprint at every level, folding and mask. -/
+
+/-- `genLevel` with every neighbour list reordered by `enum` -/
+def genLevelE (enum : Nat → Nat → List Nat → List Nat) (o : Opts) (m : MolG) (g : Geo) (atoms : List Nat)
+    (prev : List GShell) (k : Nat) (t : Intern) : Intern × List GShell :=
+  atoms.foldl (fun (acc : Intern × List GShell) a =>
+    let nb := enum k a (atoms.filter (fun b => b != a && g.within k a b && (o.includeDisconnected || bonded m a b)))
+    let members := uniq (nb.map (fun b => (shellOf prev b).sid))
+    let (t', i) := intern acc.1 (a, members)
+    let sub := uniq (a :: nb.flatMap (fun b => (shellOf prev b).sub))
+    (t', acc.2 ++ [{ atom := a, sid := i, sub := sub, nbrs := nb, ident := shellIdent o m g prev k a nb }])) (t, [])
+
+theorem genLevelE_id (o : Opts) (m : MolG) (g : Geo) (atoms : List Nat) (prev : List GShell) (k : Nat) (t : Intern) :
+    genLevelE (fun _ _ l => l) o m g atoms prev k t = genLevel o m g atoms prev k t := rfl
+
+/-- the run with reordered neighbour enumeration -/
+def runFpE (enum : Nat → Nat → List Nat → List Nat) (o : Opts) (m : MolG) (g : Geo) : Except Err FState :=
+  runFpG (fun atoms => genLevelE enum o m g atoms) o m
+
+theorem runFpE_id (o : Opts) (m : MolG) (g : Geo) : runFpE (fun _ _ l => l) o m g = runFp o m g := by
+  rw [runFp_eq_G]; rfl
+
+theorem genLevelE_stripEq (enum : Nat → Nat → List Nat → List Nat) (henum : ∀ k a l, (enum k a l).Perm l)
+    (o : Opts) (m : MolG) (g : Geo) (atoms : List Nat) :
+    GenStripEq (genLevelE enum o m g atoms) (genLevel o m g atoms) := by
+  intro prev prev' k t hprev
+  have hid : ∀ b, (shellOf prev b).ident = (shellOf prev' b).ident := fun b => (shellOf_strip_congr hprev b).1
+  have hsid : (fun b => (shellOf prev b).sid) = (fun b => (shellOf prev' b).sid) :=
+    funext (fun b => (shellOf_strip_congr hprev b).2.1)
+  have hsub : (fun b => (shellOf prev b).sub) = (fun b => (shellOf prev' b).sub) :=
+    funext (fun b => (shellOf_strip_congr hprev b).2.2)
+  unfold genLevelE genLevel
+  apply foldl_rel (fun (x y : Intern × List GShell) => x.1 = y.1 ∧ x.2.map GShell.strip = y.2.map GShell.strip)
+  · exact ⟨rfl, rfl⟩
+  · intro acc acc' a _ ⟨h1, h2⟩
+    have hf := henum k a (atoms.filter (fun b => b != a && g.within k a b && (o.includeDisconnected || bonded m a b)))
+    generalize enum k a (atoms.filter (fun b => b != a && g.within k a b && (o.includeDisconnected || bonded m a b))) = nb' at hf
+    generalize atoms.filter (fun b => b != a && g.within k a b && (o.includeDisconnected || bonded m a b)) = nb at hf
+    have hmem : uniq (nb'.map (fun b => (shellOf prev' b).sid)) = uniq (nb.map (fun b => (shellOf prev' b).sid)) :=
+      uniq_ext _ _ (fun x => (hf.map _).mem_iff)
+    have hsb : uniq (a :: nb'.flatMap (fun b => (shellOf prev' b).sub)) = uniq (a :: nb.flatMap (fun b => (shellOf prev' b).sub)) := by
+      apply uniq_ext
+      intro x
+      simp only [List.mem_cons, List.mem_flatMap]
+      constructor
+      · rintro (h | ⟨b, hb, hx⟩)
+        · exact Or.inl h
+        · exact Or.inr ⟨b, hf.mem_iff.1 hb, hx⟩
+      · rintro (h | ⟨b, hb, hx⟩)
+        · exact Or.inl h
+        · exact Or.inr ⟨b, hf.mem_iff.2 hb, hx⟩
+    have hident : shellIdent o m g prev k a nb' = shellIdent o m g prev' k a nb :=
+      (shellIdent_prev_congr o m g prev prev' k a nb' hid).trans (shellIdent_perm o m g prev' k a nb' nb hf)
+    simp only [hsid, hsub, hmem, hsb, hident, h1, List.map_append, h2, List.map_cons, List.map_nil, GShell.strip,
+      true_and]
+
+/-- **set iteration order is irrelevant**: whatever order the neighbours of each atom are enumerated
+in at each level, the run ends in the same state up to the (never read) stored neighbour lists -/
+theorem runFpE_strip (enum : Nat → Nat → List Nat → List Nat) (henum : ∀ k a l, (enum k a l).Perm l)
+    (o : Opts) (m : MolG) (g : Geo) :
+    (runFpE enum o m g).map FState.strip = (runFp o m g).map FState.strip := by
+  rw [runFp_eq_G]
+  exact runFpG_strip _ _ (fun atoms => genLevelE_stripEq enum henum o m g atoms) o m
+
+/-- ... and the fingerprint read off it, at any level, folding and mask, is the same -/
+theorem runFpE_fingerprint (enum : Nat → Nat → List Nat → List Nat) (henum : ∀ k a l, (enum k a l).Perm l)
+    (o : Opts) (m : MolG) (g : Geo) (req : Option Int) (bits : Option Nat) (mask : List Nat) :
+    (runFpE enum o m g >>= fun s => fingerprintAt o s req bits mask)
+      = (runFp o m g >>= fun s => fingerprintAt o s req bits mask) := by
+  have h := runFpE_strip enum henum o m g
+  cases h1 : runFpE enum o m g with
+  | error e =>
+    cases h2 : runFp o m g with
+    | error e' => rw [h1, h2] at h; simp only [Except.map] at h; injection h with h; subst h; rfl
+    | ok s' => rw [h1, h2] at h; simp only [Except.map] at h; cases h
+  | ok s =>
+    cases h2 : runFp o m g with
+    | error e' => rw [h1, h2] at h; simp only [Except.map] at h; cases h
+    | ok s' =>
+      rw [h1, h2] at h
+      simp only [Except.map] at h
+      injection h with h
+      show fingerprintAt o s req bits mask = fingerprintAt o s' req bits mask
+      rw [← fingerprintAt_strip o s, ← fingerprintAt_strip o s', h]
+
+/-- non-vacuity: reversing every neighbour list is such an enumeration, and it is not the identity -/
+example : (∀ k a l, ((fun (_ _ : Nat) (l : List Nat) => l.reverse) k a l).Perm l)
+    ∧ (fun (_ _ : Nat) (l : List Nat) => l.reverse) 1 0 [1, 2] ≠ [1, 2] :=
+  ⟨fun _ _ l => List.reverse_perm l, by decide⟩
 
 end E3fpVerif.Props.C03
